@@ -621,6 +621,16 @@ func TestHeaderStateGrid(t *testing.T) {
 			if !try(reqgen.Absent) {
 				return
 			}
+			// the complete request followed by a would-be blank line made of stray CRs
+			for _, cr := range []string{"\r", "\r\r", "\r\r\r"} {
+				for _, end := range []string{"\r\n", "\n"} {
+					full := reqgen.Valid("/chat", "example.com", gridKey)
+					full.Lines = append(full.Lines, reqgen.Line{NoColon: true, Name: cr, EOL: end})
+					if !gridCase(t, kind, full, &n, &refused) {
+						return
+					}
+				}
+			}
 			for ni, nm := range reqgen.NameSpellings(name) {
 				for vi, val := range good {
 					for _, lead := range reqgen.Pads {
@@ -633,6 +643,19 @@ func TestHeaderStateGrid(t *testing.T) {
 								}
 							}
 							if !try(st, mk(nm, lead, val, trail)) {
+								return
+							}
+						}
+					}
+				}
+				// a good value followed by stray CR(s): the CR belongs to the value,
+				// except the one a bare LF takes as part of the terminator
+				for _, val := range good {
+					for _, cr := range reqgen.StrayCRs {
+						for _, end := range []string{"\r\n", "\n"} {
+							ln := mk(nm, " ", val, cr)
+							ln.EOL = end
+							if !try(reqgen.Wrong, ln) {
 								return
 							}
 						}
@@ -687,7 +710,8 @@ func TestRequestLineGrid(t *testing.T) {
 		s := string(rune(c))
 		versions = append(versions, "HTTP/1."+s, "HTTP/"+s+".1", "HTTP/1.1"+s, "HTTP/1."+s+"0")
 	}
-	targets := append(append([]string{}, reqgen.Targets...), reqgen.AbsTargets...)
+	targets := append(append(append([]string{}, reqgen.Targets...), reqgen.AbsTargets...), reqgen.SpacedTargets...)
+	targets = append(targets, "", "\t/ws", "/ws\t")
 	for _, kind := range []reqgen.Kind{reqgen.Raw, reqgen.HTTP} {
 		for _, m := range methods {
 			for _, ver := range versions {
@@ -845,6 +869,51 @@ func TestCustomHooksGrid(t *testing.T) {
 		}
 	}
 	hx.Part("ProtocolCustom {last accepted, fixed} x custom accept set x Protocol selector {unset, 5 sets} x 1-2 protocol lines; ExtensionCustom x Extension {unset, set} x 1-2 extension lines (ws.Upgrader)", int64(n), true)
+}
+
+// TestEarlyEmptyLine: the head ends at the first empty line ("\r" followed by
+// a bare LF is one); header-looking lines after it are not part of the
+// request and must not influence the answer.
+func TestEarlyEmptyLine(t *testing.T) {
+	n := 0
+	later := [][2]string{{reqgen.NameExtensions, "x-a; p=1"}, {reqgen.NameProtocol, "chat"}, {reqgen.NameKey, "AAAAAAAAAAAAAAAAAAAAAA=="}, {reqgen.NameUpgrade, "h2c"}, {"X-Extra", "1"}}
+	for _, kind := range []reqgen.Kind{reqgen.Raw, reqgen.HTTP} {
+		for _, mode := range []reqgen.ExtMode{reqgen.ExtNone, reqgen.ExtSelector, reqgen.ExtNegotiate, reqgen.ExtCustom} {
+			for _, blank := range []reqgen.Line{{NoColon: true, Name: "\r", EOL: "\n"}, {NoColon: true, Name: "", EOL: "\n"}, {NoColon: true, Name: "", EOL: "\r\n"}} {
+				for _, l := range later {
+					req := reqgen.Valid("/chat", "example.com", gridKey).Add(reqgen.NameExtensions, "x-a")
+					req.Lines = append(req.Lines, blank)
+					req.Add(l[0], l[1])
+					cfg := &reqgen.Config{Kind: kind, ExtMode: mode, Ext: map[string]reqgen.ExtPolicy{"x-a": {Act: reqgen.ExtAcceptAll}}, HasProtocol: true, Protocols: []string{"chat"},
+						OnHeader: reqgen.Outcome{Kind: reqgen.CbError, Reason: "no extra headers"}}
+					v := reqgen.Classify(req, cfg)
+					var o outcome
+					var built *reqgen.Built
+					ok := true
+					if kind == reqgen.Raw {
+						var u ws.Upgrader
+						u, built = cfg.Upgrader()
+						o = runRaw(u, req.Render(), transport{})
+					} else {
+						var u ws.HTTPUpgrader
+						u, built = cfg.HTTPUpgrader()
+						o, ok = runHTTP(u, req.Render(), 0)
+					}
+					n++
+					hx.Eval()
+					if !ok {
+						continue
+					}
+					record("grid:", req, cfg, &v, "")
+					if msg := judge(cfg, &v, built, o); msg != "" {
+						hx.Failf(t, describe(req, cfg, &v), "%s\nmodel: %s\nerr: %v\nwritten: %q", msg, v, o.err, o.out)
+						return
+					}
+				}
+			}
+		}
+	}
+	hx.Part("early empty line x header-looking line after it x extension mode x {ws.Upgrader, ws.HTTPUpgrader}", int64(n), true)
 }
 
 // TestRejectionWithoutStatus: every callback rejecting with
@@ -1209,6 +1278,23 @@ func fuzzSeeds() [][]byte {
 	}
 	add(lf)
 	add(v.Clone().Set(reqgen.NameConnection, "keep-alive,\tUpgrade"))
+	for _, name := range []string{reqgen.NameKey, reqgen.NameVersion, reqgen.NameUpgrade} {
+		cr := v.Clone()
+		for i := range cr.Lines {
+			if cr.Lines[i].Name == name {
+				cr.Lines[i].Trail = "\r"
+			}
+		}
+		add(cr)
+	}
+	for _, target := range []string{"/chat room", " /ws", "/ws ", "/ws HTTP/1.0"} {
+		sp := v.Clone()
+		sp.Target = target
+		add(sp)
+	}
+	crEnd := v.Clone()
+	crEnd.Lines = append(crEnd.Lines, reqgen.Line{NoColon: true, Name: "\r", EOL: "\r\n"})
+	add(crEnd)
 	add(v.Clone().Add(reqgen.NameKey, "AAAAAAAAAAAAAAAAAAAAAA=="))
 	add(v.Clone().Add(reqgen.NameExtensions, "x-a; p=\"a\\\"b\", x-b"))
 	// found by the native fuzzer: a control byte inside a quoted extension parameter is echoed (escaped) into the 101
